@@ -221,8 +221,8 @@ pub fn c05_oracle(u: &Value, strat: &Strat, cfg: &Cfg, out: &Out<String>) -> (Op
     }
     match (&jwk, p.get("cnf")) {
         (Some(j), Some(c)) if c == &json!({ "jwk": j }) => {}
-        (None, None) => {}
-        (None, Some(c)) if u.get("cnf") == Some(c) => {}
+        // without a bound holder key cnf is an ordinary user claim: clauses (3) and (4) already cover it
+        (None, _) => {}
         (a, b) => bad.push(("wrong_payload".into(), "c05.5_cnf".into(), format!("expected jwk {a:?}, cnf is {b:?}"))),
     }
     // header alg
@@ -392,6 +392,11 @@ pub fn issue_checked(u: &Value, strat: &Strat, cfg: &Cfg, checks: Checks, prop: 
 
 /// Full pass over one (claims, strategy, cfg): issuance + every selection in `sels`.
 pub fn run_cred(u: &Value, strat: &Strat, cfg: &Cfg, sels: &[Map<String, Value>], checks: Checks, prop: &str, l: &mut Local) {
+    // a top-level claim named cnf is inside the claim domain only when no holder key is bound
+    if cfg.hk != Hk::None && u.get("cnf").is_some() {
+        l.outcome("outside_claim_domain_skipped(cnf_with_holder_key)");
+        return;
+    }
     l.evals += 1;
     let Some(cred) = issue_checked(u, strat, cfg, checks, prop, l) else { return };
     if !(checks.c01 || checks.c06) {
